@@ -4,16 +4,20 @@ from harness.props._common import run_eval, replay_eval
 from harness import monitors
 
 PROPS_FILE = "P_C04"
-COQ_TARGETS = ["CaseLib", "CaseLibMcx", "LdmcsuModel"]
+COQ_TARGETS = ["CaseLib", "CaseLibMcx", "LdmcsuModel", "QdmcuModel"]
 RULE = ("contract monitors: every call of Qdmcu.custom_sqrtm (V unitary, V V = U: premises of C04_barenco_step) and of "
         "Ldmcsu._compute_gate_a (A unitary, (A^dagger X A X)^2 = U: conclusion of C04_gate_a_fourth_root in matrix form) made while "
         "building gates for boundary and random SU(2)/U(2) matrices and 2..6/9 controls is checked numerically at 1e-9; gate-list "
         "correspondence: the flattened definition of Ldmcsu(U, k, ctrl_state) for U with a real main or secondary diagonal, k = 2..12/24, "
         "is compared inside Coq (vm_compute) with LdmcsuModel.ldmcsu k pattern hconj, and the 2x2 premises of C04_ldmcsu_plain/_hconj "
-        "(A^dagger A = I, (A^dagger X A X)^2 = U or H U H) are checked on the A the code computed; direct "
+        "(A^dagger A = I, (A^dagger X A X)^2 = U or H U H) are checked on the A the code computed; the flattened definition of "
+        "Qdmcu(U, n, ctrl_state), n = 1..9/16, U(2) boundary and Haar matrices, is compared inside Coq with QdmcuModel.qdmcu (controlled V / "
+        "V^dagger gates named by the custom_sqrtm iterate their base matrix equals, each checked to be the ideal controlled matrix; the "
+        "premises of C04_qdmcu - V_(l+1)^2 = V_l, unitarity - are checked on the iterates); direct "
         "evaluation (harness/props/c04_eval.py): operator / random-state evolution vs the ideal controlled-U for every gate class, "
         "control pattern and boundary matrix. distinct = distinct (class, matrix, controls, pattern); non-trivial = k >= 2")
 ASSUMPTIONS = ["Qiskit's UnitaryGate(...).control(...) is the ideal controlled gate (validated numerically in the direct evaluation)",
+               "the 2x2 identities that are premises of C04_qdmcu / C04_ldmcsu_* (square roots, unitarity) are checked numerically on the matrices the code computes",
                "Ldmcu's ladder, Ldmcsu's eigenbasis branch (complex diagonals), LdMcSpecialUnitary's ABC decomposition, MCU's truncated ladder and "
                "MultiTargetMCSU2 are evaluated, not proved"]
 TRUSTED = ["harness/monitors.py"]
@@ -165,9 +169,104 @@ def ldmcsu_correspondence(ctx):
     run_bool_cases(ctx, "c04_ldmcsu", LHEADER, lines, cases, on_fail, shard=12)
 
 
+QHEADER = ("From Coq Require Import List Bool Arith.\nFrom QV Require Import McxModel CaseLib CaseLibMcx QdmcuModel.\nImport ListNotations.\n"
+           "Definition qg_eqb (g h : qg) : bool := match g, h with\n"
+           " | QS a, QS b => sgate_eqb a b\n"
+           " | QCV d l v c t, QCV d' l' v' c' t' => Bool.eqb d d' && Nat.eqb l l' && Bool.eqb v v' && Nat.eqb c c' && Nat.eqb t t'\n"
+           " | _, _ => false end.\n"
+           "(* (dagger, level) pairs naming numerically equal 2x2 matrices are identified: table computed by the harness *)\n"
+           "Definition canon (tb : list ((bool * nat) * (bool * nat))) (d : bool) (l : nat) : bool * nat :=\n"
+           "  match find (fun e => Bool.eqb (fst (fst e)) d && Nat.eqb (snd (fst e)) l) tb with Some e => snd e | None => (d, l) end.\n"
+           "Definition cgate tb (g : qg) : qg := match g with QCV d l v c t => let (d', l') := canon tb d l in QCV d' l' v c t | _ => g end.\n")
+
+
+def qdmcu_correspondence(ctx):
+    """Qdmcu(U, n, ctrl_state) for U(2) matrices: the flattened definition (controlled V / V^dagger kept whole, LinearMcx action-only
+    blocks and their inverses opened) is compared inside Coq with QdmcuModel.qdmcu n (n-1) 0 pattern; each controlled gate is named by
+    the iterate of custom_sqrtm its base matrix equals, and checked to be the ideal controlled matrix."""
+    from qiskit.circuit import ControlledGate
+    from qiskit.quantum_info import Operator
+    from qclib.gates.qdmcu import Qdmcu
+    from harness.flatten import flatten, coq_list, coq_bool, ctrl_state_of
+    from harness.coqcases import run_bool_cases
+    from harness.props.c05 import pat_of, sgates_to_coq
+    from scipy.stats import unitary_group
+    nmax = 9 if ctx.quick else 16
+
+    def stop(op):
+        if isinstance(op, ControlledGate) and op.num_ctrl_qubits == 1 and op.num_qubits == 2 and op.name not in ("cx",):
+            return "cv"
+        return None
+
+    def u2_family():
+        yield from su2_family(ctx.rng)
+        yield "X", X.copy()
+        yield "Z", np.diag([1.0 + 0j, -1.0])
+        yield "phase", np.diag([1.0 + 0j, np.exp(0.7j)])
+        yield "global_phase", np.exp(0.3j) * np.eye(2, dtype=complex)
+        for _ in range(2):
+            yield "haar_u2", unitary_group.rvs(2, random_state=int(ctx.rng.integers(1 << 30)))
+    cases, lines = [], []
+    for n in range(1, nmax + 1):
+        for fam, U in u2_family():
+            if n > 6 and fam not in ("haar_u2", "X", "identity", "iX", "haar_su2"):
+                continue
+            cs = None if ctx.rng.random() < 0.3 else "".join("1" if ctx.rng.random() < 0.5 else "0" for _ in range(n))
+            g = Qdmcu(U, n, ctrl_state=cs)
+            fl, _ = flatten(g.definition, stop=stop)
+            # the iterates of the square root, as the code computes them
+            Vs = [np.asarray(U, dtype=complex)]
+            for _ in range(n):
+                Vs.append(np.asarray(Qdmcu.custom_sqrtm(Vs[-1])))
+            names = [(d, l) for l in range(n + 1) for d in (False, True)]
+            mat = {(d, l): (Vs[l].conj().T if d else Vs[l]) for (d, l) in names}
+            rep = {}
+            for i, a in enumerate(names):
+                rep[a] = next(b for b in names[:i + 1] if np.abs(mat[a] - mat[b]).max() < 1e-12)
+            table = coq_list([f"(({coq_bool(a[0])}, {a[1]}), ({coq_bool(rep[a][0])}, {rep[a][1]}))" for a in names])
+            items, bad = [], None
+            for name, qs, op in fl:
+                if name == "cv":
+                    B = np.asarray(Operator(op.base_gate).data)
+                    hit = next((a for a in names if np.abs(B - mat[a]).max() < 1e-12), None)
+                    cvb = ctrl_state_of(op)[0]
+                    ideal = np.eye(4, dtype=complex)
+                    idx = [2 * t + cvb for t in (0, 1)]                # little-endian: index = 2 * target + control
+                    ideal[np.ix_(idx, idx)] = B
+                    ctx.monitor("qdmcu_controlled_gate_is_ideal")
+                    if np.abs(np.asarray(Operator(op).data) - ideal).max() > 1e-9:
+                        bad = "a controlled V gate is not the ideal controlled matrix"
+                    if hit is None:
+                        items.append("QCV false 99999 true 0 0")
+                    else:
+                        items.append(f"QCV {coq_bool(rep[hit][0])} {rep[hit][1]} {coq_bool(bool(cvb))} {qs[0]} {qs[1]}")
+                else:
+                    items.append("QS (" + sgates_to_coq([(name, qs, op)])[1:-1] + ")")
+            case = {"class": "Qdmcu", "k": n, "ctrl_state": cs, "mat_family": fam, "matrix": [[str(z) for z in row] for row in U]}
+            cases.append(case)
+            ctx.max_struct_qubits = max(ctx.max_struct_qubits, n + 1)
+            ctx.count("corr:qdmcu", key=("qdmcu", n, cs, fam, U.tobytes()), nontrivial=n >= 2,
+                      sample={"class": "Qdmcu", "k": n, "ctrl_state": cs, "mat_family": fam, "gates": len(items)} if n == 4 else None)
+            if bad:
+                ctx.mismatch("C04 contract: " + bad, case)
+            # premises of C04_qdmcu on the iterates
+            ctx.monitor("qdmcu_theorem_premises")
+            for l in range(n):
+                if np.abs(Vs[l + 1] @ Vs[l + 1] - Vs[l]).max() > 1e-9 or np.abs(Vs[l + 1] @ Vs[l + 1].conj().T - np.eye(2)).max() > 1e-9:
+                    ctx.mismatch("C04 contract: custom_sqrtm iterate is not a unitary square root (premise of C04_qdmcu)", dict(case, level=l + 1))
+                    break
+            model = f"(map (cgate {table}) (qdmcu {n} {n - 1} 0 {coq_list([coq_bool(b) for b in pat_of(cs, n)])}))"
+            lines.append(f"(list_eqb qg_eqb {model} {coq_list(items)})")
+
+    def on_fail(c):
+        ctx.mismatch("C04 correspondence: flattened Qdmcu definition differs from the Coq model QdmcuModel.qdmcu", c)
+    run_bool_cases(ctx, "c04_qdmcu", QHEADER, lines, cases, on_fail, shard=12)
+
+
 def run(ctx):
     monitor_run(ctx)
     ldmcsu_correspondence(ctx)
+    qdmcu_correspondence(ctx)
     run_eval(ctx, "C04")
 
 
@@ -180,7 +279,7 @@ def replay(ctx, case):
 
 
 MANIFEST = dict(
-    text="Proof (PARTIAL): the recursion step of Qdmcu (Barenco Lemma 7.5) for any placement and any 'rest' predicate (C04_barenco_step), and the fourth-root identity of Ldmcsu._compute_gate_a over the reals (C04_gate_a_fourth_root); Ldmcsu end to end for every k >= 2, every control pattern and every SU(2) matrix with a real main or secondary diagonal: the gate list of LdmcsuModel.ldmcsu (two dirty V-chains, their inverses, A / A^dagger, optional H conjugation) applies U to the target exactly on the basis states matching the pattern and the identity elsewhere (C04_ldmcsu_plain, C04_ldmcsu_hconj, built on C05's placed V-chain theorems). Tie: the flattened Ldmcsu definition is compared with the model's gate list inside Coq; every custom_sqrtm and _compute_gate_a call made while building gates for boundary and random SU(2) matrices is checked against the theorem's premises/conclusion in matrix form. All gate classes (Ldmcu, Ldmcsu, LdMcSpecialUnitary, Qdmcu, Mcg, MCU, MultiTargetMCSU2), patterns and boundary matrices are evaluated against the ideal controlled operator.",
-    note='Modelled, not verified: Qiskit .control(), UnitaryGate; Ldmcu ladder, Ldmcsu eigenbasis branch, ABC decomposition, MCU bound, multi-target variant are evaluated only.',
+    text="Proof (PARTIAL): Qdmcu end to end for every number of controls, every control pattern and every 2x2 matrix family with V_(l+1)^2 = V_l, V_l V_l^dagger = 1: the gate list of QdmcuModel.qdmcu (controlled V, action-only LinearMcx on the lower controls with the target as dirty ancilla, controlled V^dagger, the inverse LinearMcx, recursion on the remaining controls with the next square root) applies U to the target exactly on the basis states matching the pattern and the identity elsewhere (C04_qdmcu; it rests on the exact LinearMcx for every k >= 1 and every pattern, C04_linear_mcx_exact, on the factorisation exact = controls-only circuit after action-only, and on a polarity version of Barenco Lemma 7.5); the spectral square root squares to the matrix (C04_spectral_sqrt); the recursion step of Qdmcu (Barenco Lemma 7.5) for any placement and any 'rest' predicate (C04_barenco_step), and the fourth-root identity of Ldmcsu._compute_gate_a over the reals (C04_gate_a_fourth_root); Ldmcsu end to end for every k >= 2, every control pattern and every SU(2) matrix with a real main or secondary diagonal: the gate list of LdmcsuModel.ldmcsu (two dirty V-chains, their inverses, A / A^dagger, optional H conjugation) applies U to the target exactly on the basis states matching the pattern and the identity elsewhere (C04_ldmcsu_plain, C04_ldmcsu_hconj, built on C05's placed V-chain theorems). Tie: the flattened Ldmcsu and Qdmcu definitions are compared with the models' gate lists inside Coq; every custom_sqrtm and _compute_gate_a call made while building gates for boundary and random SU(2) matrices is checked against the theorem's premises/conclusion in matrix form. All gate classes (Ldmcu, Ldmcsu, LdMcSpecialUnitary, Qdmcu, Mcg, MCU, MultiTargetMCSU2), patterns and boundary matrices are evaluated against the ideal controlled operator.",
+    note='Modelled, not verified: Qiskit .control(), UnitaryGate; scipy schur inside custom_sqrtm (its output is checked, not modelled); Ldmcu ladder, Ldmcsu eigenbasis branch, ABC decomposition, MCU bound, multi-target variant are evaluated only.',
     technique='Coq proof (operator algebra on monomial/permuted states; real sqrt algebra) + runtime contract monitors + operator / random-state evaluation',
     design_ref='DESIGN.md section 4, C04')
